@@ -21,6 +21,8 @@ use std::collections::BTreeSet;
 enum AnyWorld {
   G(GWorld),
   R(RegWorld),
+  /// hand-shaped world (served as is) with the unstable text / bytes import flags on
+  Raw(Vec<String>),
 }
 
 struct Built {
@@ -62,6 +64,12 @@ fn build_any_npm(
       };
       catch(|| {
         run_build(&mut graph, &gw.roots, &gw.imports, &loader, &cfg, None, exec, None);
+      })?;
+    }
+    AnyWorld::Raw(roots) => {
+      let cfg = BuildCfg { kind, unstable_text: true, unstable_bytes: true, ..Default::default() };
+      catch(|| {
+        run_build(&mut graph, roots, &[], &loader, &cfg, None, exec, None);
       })?;
     }
     AnyWorld::R(rw) => {
@@ -692,9 +700,44 @@ fn check_faulted(
   }
 }
 
-fn one_world(i: usize, seed: u64, tier: Tier, acc: &mut Acc, registry: bool) {
-  let mut rng = Rng::new(seed).fork(i as u64 ^ if registry { 0xC03_1 } else { 0xC03_0 });
-  let (aw, world, ctx) = if registry {
+/// one target imported as an asset by one module and plainly by another (either order), statically known
+/// dynamic imports elsewhere, a second asset import of a module that is also imported dynamically
+fn asset_world(rng: &mut Rng) -> (AnyWorld, World, Value) {
+  let attr = if rng.coin() { "text" } else { "bytes" };
+  let target = if rng.coin() { "https://h.test/lib/mod.ts" } else { "https://h.test/latest/mod.ts" };
+  let asset_src = format!("import t from \"{}\" with {{ type: \"{}\" }};\nexport const a = t;\n", target, attr);
+  let plain_src = format!("import * as m from \"{}\";\nexport const b = m;\n", target);
+  let asset_first = rng.coin();
+  let mut w = World::new();
+  let mut main = String::from("import \"./first.ts\";\nimport \"./second.ts\";\n");
+  match rng.below(3) {
+    0 => main.push_str("const lazy = await import(\"./lazy.ts\");\n"),
+    1 => main.insert_str(0, "const lazy = await import(\"./lazy.ts\");\n"),
+    _ => {
+      main.push_str("const lazy = await import(\"./lazy.ts\");\nconst lazy2 = await import(\"./lazy2.ts\");\n");
+      w.add_text("file:///lazy2.ts", &format!("import d from \"./data.txt\" with {{ type: \"{}\" }};\nexport const l2 = d;\n", attr));
+      w.add_text("file:///data.txt", "plain data");
+    }
+  }
+  w.add_text("file:///main.ts", &main);
+  w.add_text("file:///first.ts", if asset_first { &asset_src } else { &plain_src });
+  w.add_text("file:///second.ts", if asset_first { &plain_src } else { &asset_src });
+  w.add_text("file:///lazy.ts", "import \"./lazy_dep.ts\";\nexport const l = 1;\n");
+  w.add_text("file:///lazy_dep.ts", "export const ld = 1;\n");
+  w.add_text("https://h.test/lib/mod.ts", "import \"./dep.ts\";\nexport const v = 1;\n");
+  w.add_text("https://h.test/lib/dep.ts", "export const d = 1;\n");
+  w.add("https://h.test/latest/mod.ts", Resp::Redirect("https://h.test/lib/mod.ts".into()));
+  let ctx = json!({"asset_world": w.to_json(), "asset_import_first": asset_first});
+  (AnyWorld::Raw(vec!["file:///main.ts".to_string()]), w, ctx)
+}
+
+fn one_world(i: usize, seed: u64, tier: Tier, acc: &mut Acc, mode: u8) {
+  let registry = mode == 1;
+  let mut rng = Rng::new(seed).fork(i as u64 ^ match mode { 1 => 0xC03_1, 2 => 0xC03_2, _ => 0xC03_0 });
+  let (aw, world, ctx) = if mode == 2 {
+    acc.count("asset_worlds");
+    asset_world(&mut rng)
+  } else if registry {
     let mut rw = gen_reg_world(&mut rng);
     rw.reload_only_versions.clear();
     if rng.chance(1, 3) {
@@ -920,8 +963,10 @@ pub fn run(tier: Tier, seed: u64) -> i32 {
   }
   let n_g = tier.pick(720, 18000);
   let n_r = tier.pick(360, 9000);
-  let mut acc = par_run(n_g, |i, acc| one_world(i, seed, tier, acc, false));
-  let acc2 = par_run(n_r, |i, acc| one_world(i, seed, tier, acc, true));
+  let mut acc = par_run(n_g, |i, acc| one_world(i, seed, tier, acc, 0));
+  let acc2 = par_run(n_r, |i, acc| one_world(i, seed, tier, acc, 1));
+  let acc3 = par_run(tier.pick(48, 960), |i, acc| one_world(i, seed, tier, acc, 2));
+  acc.merge(acc3);
   acc.merge(acc2);
   rep.finish(acc)
 }
